@@ -73,7 +73,12 @@ fn outcome_of(r: httparse::Result<usize>) -> Outcome {
     match r { Ok(httparse::Status::Complete(n)) => Outcome::Complete(n), Ok(httparse::Status::Partial) => Outcome::Partial, Err(e) => Outcome::Err(kind_of(e)) }
 }
 fn mkcfg(c: Cfg) -> httparse::ParserConfig {
+    // every option is first set to the OPPOSITE value and then to the wanted one (a setter must also be able to clear its flag),
+    // and the four getters must report what was set (a disagreement is a panic, reported by the panic hook as a finding)
     let mut p = httparse::ParserConfig::default();
+    p.allow_spaces_after_header_name_in_responses(!c.sp_after_name_resp).allow_obsolete_multiline_headers_in_responses(!c.fold_resp)
+        .allow_multiple_spaces_in_request_line_delimiters(!c.multi_sp_req).allow_multiple_spaces_in_response_status_delimiters(!c.multi_sp_resp)
+        .allow_space_before_first_header_name(!c.sp_before_first).ignore_invalid_headers_in_responses(!c.ignore_resp).ignore_invalid_headers_in_requests(!c.ignore_req);
     p.allow_spaces_after_header_name_in_responses(c.sp_after_name_resp);
     p.allow_obsolete_multiline_headers_in_responses(c.fold_resp);
     p.allow_multiple_spaces_in_request_line_delimiters(c.multi_sp_req);
@@ -81,6 +86,9 @@ fn mkcfg(c: Cfg) -> httparse::ParserConfig {
     p.allow_space_before_first_header_name(c.sp_before_first);
     p.ignore_invalid_headers_in_responses(c.ignore_resp);
     p.ignore_invalid_headers_in_requests(c.ignore_req);
+    assert!(p.multiple_spaces_in_request_line_delimiters_are_allowed() == c.multi_sp_req && p.multiple_spaces_in_response_status_delimiters_are_allowed() == c.multi_sp_resp
+        && p.obsolete_multiline_headers_in_responses_are_allowed() == c.fold_resp && p.space_before_first_header_name_are_allowed() == c.sp_before_first,
+        "a ParserConfig getter does not report the value its setter was given");
     p
 }
 /// offset range of a sub-slice inside buf, or None if it is not inside
@@ -529,6 +537,54 @@ fn search_header_block(ctx: &mut Ctx, start: &[u8], kind: u8) {
     }
 }
 
+/// C18, two earlier calls: first a message in its own allocation, then a PREFIX of the probe at the probe's own address (the
+/// documented loop "parse, read more into the same buffer, parse again"), then the probe; compared with a fresh value.
+/// Recorded for replay as history = the first message, history_cfg = the prefix length, history_uninit = 2.
+fn check_history_multi(ctx: &mut Ctx, resp: bool, m1: &[u8], probe: &[u8], k: usize, cfgb: u8, cap: usize) {
+    ctx.evals += 1;
+    let arena = with_tail(probe);
+    let probe = &arena[..probe.len()];
+    let k = k.min(probe.len());
+    set_cur(if resp { "response" } else { "request" }, cfgb, cap, probe);
+    let mut arr1 = vec![httparse::Header { name: SENT_NAME, value: SENT_VAL }; cap];
+    let mut arr2 = vec![httparse::Header { name: SENT_NAME, value: SENT_VAL }; cap];
+    let pb = mkcfg(Cfg::from_bits(cfgb));
+    let (r1, r2, same_fields, desc_used, desc_fresh);
+    if resp {
+        let mut used = httparse::Response::new(&mut arr1[..]);
+        let _ = pb.parse_response(&mut used, m1);
+        let _ = pb.parse_response(&mut used, &probe[..k]);
+        let cap_now = used.headers.len();
+        r1 = pb.parse_response(&mut used, probe);
+        let mut fresh = httparse::Response::new(&mut arr2[..cap_now]);
+        r2 = pb.parse_response(&mut fresh, probe);
+        let complete = matches!(r2, Ok(httparse::Status::Complete(_)));
+        same_fields = !complete || (used.version == fresh.version && used.code == fresh.code && used.reason == fresh.reason && used.headers.len() == fresh.headers.len()
+            && used.headers.iter().zip(fresh.headers.iter()).all(|(x, y)| x.name == y.name && x.value == y.value));
+        desc_used = format!("version={:?} code={:?} reason={:?} nheaders={}", used.version, used.code, used.reason, used.headers.len());
+        desc_fresh = format!("version={:?} code={:?} reason={:?} nheaders={}", fresh.version, fresh.code, fresh.reason, fresh.headers.len());
+    } else {
+        let mut used = httparse::Request::new(&mut arr1[..]);
+        let _ = pb.parse_request(&mut used, m1);
+        let _ = pb.parse_request(&mut used, &probe[..k]);
+        let cap_now = used.headers.len();
+        r1 = pb.parse_request(&mut used, probe);
+        let mut fresh = httparse::Request::new(&mut arr2[..cap_now]);
+        r2 = pb.parse_request(&mut fresh, probe);
+        let complete = matches!(r2, Ok(httparse::Status::Complete(_)));
+        same_fields = !complete || (used.method == fresh.method && used.path == fresh.path && used.version == fresh.version && used.headers.len() == fresh.headers.len()
+            && used.headers.iter().zip(fresh.headers.iter()).all(|(x, y)| x.name == y.name && x.value == y.value));
+        desc_used = format!("method={:?} path={:?} version={:?} nheaders={}", used.method, used.path, used.version, used.headers.len());
+        desc_fresh = format!("method={:?} path={:?} version={:?} nheaders={}", fresh.method, fresh.path, fresh.version, fresh.headers.len());
+    }
+    if outcome_of(r1) != outcome_of(r2) || !same_fields {
+        unsafe { HIST = Some((m1.to_vec(), k as u8, 2)); }
+        ctx.add(Finding { stage: "any", gen: "", family: if resp { "response" } else { "request" }, oracle: "history".into(),
+            entry: "ParserConfig::parse_* (value reused twice: another message, then a prefix of this buffer at the same address)".into(), cfg: cfgb, cap,
+            input: probe.to_vec(), real: format!("after parsing {:?} and then the first {} bytes of this buffer: {:?} {}", String::from_utf8_lossy(m1), k, r1, desc_used),
+            expected: format!("fresh value: {:?} {}", r2, desc_fresh) });
+    }
+}
 /// C18: a Request/Response value that has been through earlier calls must behave like a fresh one
 fn check_history_req(ctx: &mut Ctx, a: &[u8], cfga: u8, b: &[u8], cfgb: u8, cap: usize) {
     ctx.evals += 1;
@@ -649,6 +705,14 @@ fn search_history(ctx: &mut Ctx) {
             }
         } } } }
     }
+    // two earlier calls: another message, then every prefix of the probe at the probe's own address
+    ctx.gen = "history-grown-buffer";
+    let req_probes: Vec<&[u8]> = vec![b"GET /abc HTTP/1.0\r\nHost: x\r\n\r\n", b"GET /abc HTTP/1.7\r\n\r\n", b"GET /abc HTTP/2.0\r\n\r\n", b"POST /p HTTP/1.1\r\nA: 1\r\n\r\n",
+        b"GET /ab\xff HTTP/1.1\r\n\r\n", b"GETX /abc HTTP/1.1\r\n\r\n", b"GET  /abc  HTTP/1.0\r\n\r\n", b"\r\nGET /abc HTTP/1.0\n\n"];
+    let resp_probes: Vec<&[u8]> = vec![b"HTTP/1.0 404 Pas trouv\xe9\r\n\r\n", b"HTTP/1.1 200\r\n\r\n", b"HTTP/1.1 204 \r\nA: 1\r\n\r\n", b"HTTP/1.7 200 OK\r\n\r\n",
+        b"HTTP/1.0 2x0 OK\r\n\r\n", b"HTTP/1.0 500 \xff\n\n", b"HTTP/1.0  301  Moved\r\n\r\n"];
+    for m1 in &reqs { for p in &req_probes { for k in 0..=p.len() { for &c in &[0u8, 4] { check_history_multi(ctx, false, m1, p, k, c, 2); } } } }
+    for m1 in &resps { for p in &resp_probes { for k in 0..=p.len() { for &c in &[0u8, 8] { check_history_multi(ctx, true, m1, p, k, c, 2); } } } }
     ctx.gen = "history";
     // overlapping sub-slices of ONE allocation (stale pointers of an earlier parse lie inside the next buffer)
     for big in &reqs { for i in 0..2usize { for k in 0..2usize { for j in (i..=big.len()).step_by(3) { for l in [big.len()] {
@@ -779,6 +843,8 @@ fn main() {
             // a history finding: earlier buffer, its config bits, entry-point flavour
             let (hb, hc, hu) = (unhex(&args[6]), args[7].parse::<u8>().unwrap(), args[8].parse::<u8>().unwrap());
             match (args[2].as_str(), hu) {
+                ("request", 2) => check_history_multi(&mut ctx, false, &hb, &buf, hc as usize, cfgb, cap),
+                ("response", 2) => check_history_multi(&mut ctx, true, &hb, &buf, hc as usize, cfgb, cap),
                 ("request", 0) => check_history_req(&mut ctx, &hb, hc, &buf, cfgb, cap),
                 ("response", 0) => check_history_resp(&mut ctx, &hb, hc, &buf, cfgb, cap),
                 ("request", _) => check_history_uninit(&mut ctx, &hb, hc, &buf, cfgb, cap, false),
